@@ -147,7 +147,7 @@ def main(argv=None):
                 for ob in kjobs + run_comp:
                     r = kresults.get(ob["harness"])
                     if r and r["status"] == "failed" and ob["name"] not in known_obs:
-                        r["cex"] = kani_counterexample(sc, ob, logdir)
+                        r["cex"] = kani_counterexample(sc, ob, logdir, r.get("solver_s"))
         except AnchorLost as e:
             undecided.append("overlay: anchor lost: %s" % e)
 
